@@ -21,7 +21,7 @@ type cell struct {
 // the longest possible tail, destructive functions relink cells in place).
 // Running the oracle over it shows the oracle accepts the real semantics.
 type consModel struct {
-	v [3]*cell
+	v [nLoc]*cell
 }
 
 func mkList(e []int64, tail *cell) *cell {
@@ -64,9 +64,9 @@ func cellLen(c *cell) (n int) {
 	return
 }
 
-func (m *consModel) reset() { m.v = [3]*cell{mkList([]int64{1, 2, 3, 4}, nil), nil, nil} }
+func (m *consModel) reset([]*opDef) { m.v = [nLoc]*cell{mkList([]int64{1, 2, 3, 4}, nil)} }
 
-func (m *consModel) observe() (st [3]obsVar) {
+func (m *consModel) observe() (st state) {
 	for i, c := range m.v {
 		st[i] = obsVar{elems: elemsOf(c), present: c != nil}
 	}
@@ -140,7 +140,7 @@ func (m *consModel) exec(o *opDef, n int64) *execErr {
 		x := s.cdr.car
 		r = removeShare(s, func(y int64) bool { return y == x })
 	case "remove-absent":
-		r = s
+		r = removeShare(s, func(y int64) bool { return y == 0 })
 	case "remove-if":
 		r = removeShare(s, even)
 	case "member-2nd":
@@ -208,7 +208,10 @@ func (m *consModel) exec(o *opDef, n int64) *execErr {
 		s.cdr = nil
 		r = s
 	default:
-		panic("c06: cons model does not know " + o.name)
+		if o.group == "" {
+			panic("c06: cons model does not know " + o.name)
+		}
+		r = consGeneric(o, s, t, n)
 	}
 	if 0 <= o.dst {
 		m.v[o.dst] = r
@@ -216,19 +219,144 @@ func (m *consModel) exec(o *opDef, n int64) *execErr {
 	return nil
 }
 
+// consGeneric executes an operation of the second generation on the cons-cell reference from its record alone: a
+// non-destructive operation builds fresh cells, sharing the tail of an operand where the language allows it (tail /
+// tailT); a destructive operation RECYCLES the cells of the operands it may modify (the most destructive legal
+// behaviour: every alias of those operands sees the damage), so that the oracle is shown to accept it.
+func consGeneric(o *opDef, s, t *cell, n int64) (r *cell) {
+	sv, tv := elemsOf(s), elemsOf(t)
+	if o.wantS != nil || o.wantS2 != nil {
+		var w []int64
+		if o.wantS != nil {
+			w = o.wantS(sv, n)
+		} else {
+			w = o.wantS2(sv, tv, n)
+		}
+		if len(w) == len(sv) {
+			for c, i := s, 0; c != nil; c, i = c.cdr, i+1 {
+				c.car = w[i]
+			}
+			r = s
+		} else {
+			r = recycle(w, s)
+		}
+	}
+	if o.want == nil {
+		return
+	}
+	w := o.want(sv, tv, n)
+	switch {
+	case o.destr && !(o.keepS && (o.t < 0 || o.keepT)):
+		var pool []*cell
+		if !o.keepS {
+			pool = append(pool, s)
+		}
+		if 0 <= o.t && !o.keepT {
+			pool = append(pool, t)
+		}
+		r = recycle(w, pool...)
+	case o.tail != nil:
+		k := o.tail(sv)
+		r = mkList(w[:len(w)-(len(sv)-k)], nthCell(s, k))
+	case o.tailT != nil:
+		k := o.tailT(tv)
+		r = mkList(w[:len(w)-(len(tv)-k)], nthCell(t, k))
+	default:
+		r = mkList(w, nil)
+	}
+	return
+}
+
+// recycle builds the list w out of the cells of the given lists (in order, each cell once), fresh cells when they run out.
+func recycle(w []int64, lists ...*cell) *cell {
+	seen := map[*cell]bool{}
+	var cells []*cell
+	for _, l := range lists {
+		for c := l; c != nil && !seen[c]; c = c.cdr {
+			seen[c] = true
+			cells = append(cells, c)
+		}
+	}
+	for _, c := range cells {
+		c.cdr = nil
+	}
+	var head, prev *cell
+	for i, x := range w {
+		var c *cell
+		if i < len(cells) {
+			c = cells[i]
+		} else {
+			c = &cell{}
+		}
+		c.car, c.cdr = x, nil
+		if prev == nil {
+			head = c
+		} else {
+			prev.cdr = c
+		}
+		prev = c
+	}
+	return head
+}
+
+// sliceGeneric: the same on the slice model (a destructive operation writes its result into the operand's array).
+func sliceGeneric(o *opDef, s, t []int64, n int64) (r []int64) {
+	if o.wantS != nil || o.wantS2 != nil {
+		var w []int64
+		if o.wantS != nil {
+			w = o.wantS(s, n)
+		} else {
+			w = o.wantS2(s, append([]int64(nil), t...), n)
+		}
+		if len(w) == len(s) {
+			copy(s, w)
+			r = s
+		} else {
+			r = append(s[:0], w...)
+		}
+	}
+	if o.want == nil {
+		return
+	}
+	w := o.want(s, t, n)
+	switch {
+	case o.destr && !o.keepS && 0 < len(s):
+		r = view(append(s[:0], w...))
+	case o.tail != nil:
+		if k := o.tail(s); len(w) == len(s)-k {
+			r = view(s[k:])
+		} else {
+			r = clone(w)
+		}
+	case o.tailT != nil:
+		if k := o.tailT(t); len(w) == len(t)-k {
+			r = view(t[k:])
+		} else {
+			r = clone(w)
+		}
+	default:
+		r = clone(w)
+	}
+	return
+}
+
 // ---------------------------------------------------------------- slice models
 
 type mutant int
 
 const (
-	mutNone           mutant = iota // a correct slice implementation (copies where slip's design copies)
-	mutButlastView                  // butlast returns list[:n] instead of a copy
-	mutSubseqView                   // subseq returns list[i:j] instead of a copy
-	mutAppendInPlace                // append does append(first, second...) without copying the first argument
-	mutReverseInPlace               // reverse reverses its argument in place and returns it
-	mutConsInsert                   // cons/push insert in place: s = append(s, 0); copy(s[1:], s); s[0] = x
-	mutCopyAlias                    // copy-list returns its argument
-	mutMapcarAlias                  // mapcar with identity returns its argument
+	mutNone               mutant = iota // a correct slice implementation (copies where slip's design copies)
+	mutButlastView                      // butlast returns list[:n] instead of a copy
+	mutSubseqView                       // subseq returns list[i:j] instead of a copy
+	mutAppendInPlace                    // append does append(first, second...) without copying the first argument
+	mutReverseInPlace                   // reverse reverses its argument in place and returns it
+	mutConsInsert                       // cons/push insert in place: s = append(s, 0); copy(s[1:], s); s[0] = x
+	mutCopyAlias                        // copy-list returns its argument
+	mutMapcarAlias                      // mapcar with identity returns its argument
+	mutRemoveStartReslice               // remove-if with :start > 0 starts its result as the re-slice seq[:start] (seeded change C06-7)
+	mutReduceKeyInPlace                 // reduce with :key writes the keys into its argument (defect C06-1 of the unchanged tree)
+	mutSiteConstant                     // a list-building call with constant arguments is built once per call site (seeded change C06-8)
+	mutBoxPushInPlace                   // push on a stored list inserts in place into spare capacity
 	nMutants
 )
 
@@ -236,20 +364,26 @@ var mutantNames = map[mutant]string{
 	mutNone: "correct slice model", mutButlastView: "butlast returns list[:n]", mutSubseqView: "subseq returns list[i:j]",
 	mutAppendInPlace: "append appends in place to its first argument", mutReverseInPlace: "reverse works in place",
 	mutConsInsert: "cons/push insert in place into spare capacity", mutCopyAlias: "copy-list returns its argument",
-	mutMapcarAlias: "mapcar #'identity returns its argument",
+	mutMapcarAlias:        "mapcar #'identity returns its argument",
+	mutRemoveStartReslice: "remove-if :start k builds its result in seq[:k]", mutReduceKeyInPlace: "reduce :key overwrites its argument",
+	mutSiteConstant: "a builder call with constant arguments returns one list per call site", mutBoxPushInPlace: "push on a container's list inserts in place",
 }
 
 // sliceModel mimics an implementation of lists on Go slices.
 type sliceModel struct {
-	mut mutant
-	v   [3][]int64
+	mut   mutant
+	v     [nLoc][]int64
+	konst map[string][]int64 // mutSiteConstant: the list of every call site
 }
 
 func newSliceModel(m mutant) *sliceModel { return &sliceModel{mut: m} }
 
-func (m *sliceModel) reset() { m.v = [3][]int64{{1, 2, 3, 4}, nil, nil} }
+func (m *sliceModel) reset([]*opDef) {
+	m.konst = nil
+	m.v = [nLoc][]int64{{1, 2, 3, 4}}
+}
 
-func (m *sliceModel) observe() (st [3]obsVar) {
+func (m *sliceModel) observe() (st state) {
 	for i, s := range m.v {
 		o := obsVar{elems: append([]int64(nil), s...), present: s != nil}
 		if s != nil {
@@ -366,7 +500,7 @@ func (m *sliceModel) exec(o *opDef, n int64) *execErr {
 		x := s[1]
 		r = grow(func(y int64) bool { return y != x })
 	case "remove-absent":
-		r = clone(s)
+		r = clone(filter(s, func(y int64) bool { return y != 0 }))
 	case "remove-if", "delete-if", "delete-if-bare":
 		r = grow(func(y int64) bool { return !even(y) })
 	case "member-2nd":
@@ -425,7 +559,38 @@ func (m *sliceModel) exec(o *opDef, n int64) *execErr {
 	case "rplacd-nil":
 		r = s[:1] // a variable that is not assigned keeps its length (as in slip)
 	default:
-		panic("c06: slice model does not know " + o.name)
+		if o.group == "" {
+			panic("c06: slice model does not know " + o.name)
+		}
+		switch {
+		case m.mut == mutRemoveStartReslice && o.name == "remove-if-start":
+			r = s[:2]
+			for _, x := range s[2:] {
+				if !even(x) {
+					r = append(r, x)
+				}
+			}
+		case m.mut == mutReduceKeyInPlace && o.name == "reduce-key":
+			r = o.want(s, t, n)
+			for i := range s {
+				s[i]++
+			}
+		case m.mut == mutSiteConstant && o.group == "site" && o.s < 0:
+			if m.konst == nil {
+				m.konst = map[string][]int64{}
+			}
+			if m.konst[o.name] == nil {
+				m.konst[o.name] = o.want(nil, nil, n)
+			}
+			r = m.konst[o.name]
+		case m.mut == mutBoxPushInPlace && o.group == "box" && o.fn == "push" && 0 < len(s):
+			s = append(s, 0)
+			copy(s[1:], s)
+			s[0] = n
+			r = s
+		default:
+			r = sliceGeneric(o, s, t, n)
+		}
 	}
 	if 0 <= o.dst {
 		m.v[o.dst] = r
@@ -482,9 +647,9 @@ func opsOf(codes []string) []*opDef {
 // the oracle on every history explored (the oracle demands nothing the
 // language does not); (2) every mutated model must be caught.
 func selftest(tier string) (killed, total int, notes []string) {
-	full := opsOf(alphabet(tier))
+	full := opsOf(alphabet(engine.Quick))
 	if tier == engine.Thorough {
-		full = opsOf(alphabet("all"))
+		full = opsOf(alphabet("everything"))
 	}
 	core := opsOf(alphabet("core"))
 	okRef := true
@@ -515,6 +680,16 @@ func selftest(tier string) (killed, total int, notes []string) {
 		d := 2
 		if sig == "" {
 			_, sig, _, _ = explore(mk, core, 3, true)
+			d = 3
+		}
+		if sig == "" {
+			var sub []*opDef
+			for _, o := range full {
+				if isMut(o) || o.name == "k-list-defun" || o.name == "k-append-lambda" || o.group == "box" && mentions(o, 4) {
+					sub = append(sub, o)
+				}
+			}
+			_, sig, _, _ = explore(mk, sub, 3, true)
 			d = 3
 		}
 		if sig != "" {
